@@ -58,6 +58,8 @@ def _gen_ios(cfg, pool, conns, depth, p_clock, allow_diff=True):
         if cfg.random() < 0.5:
             node["attrs"] = dict(PULL=cfg.choice(["UP", None, None]), **node["attrs"]) if cfg.random() < 0.5 else \
                 dict(node["attrs"], PULL=cfg.choice(["UP", None, None]))
+        if cfg.random() < 0.3:
+            node["attrs"]["DRIVE"] = cfg.choice([4, 8, 12])       # attribute values may be integers as well as strings
     use_conn = conns and cfg.random() < 0.35
     if use_conn:
         c = cfg.choice(conns)
@@ -84,7 +86,8 @@ def gen_case(seed, tier):
     cfg = stream(seed, "cfg")
     wl = stream(seed, "workload")
     fl = stream(seed, "faults")
-    family = cfg.choice(["ice40", "ice40", "ecp5", "gowin", "xray", "quicklogic"])
+    family = cfg.choice(["ice40", "ice40", "ecp5", "gowin", "xray", "quicklogic",
+                         "vivado", "ise", "symbiflow", "quartus", "mistral", "diamond", "oxide", "radiant", "icecube", "gowin_ide"])
     npool = cfg.choice([6, 10, 16, 30])
     pool = PHYS[:npool]
     conns = []
@@ -157,9 +160,13 @@ def gen_case(seed, tier):
     # clock constraints the design itself puts on internal nets (named by hierarchical path in the constraint file), on a net
     # of the top module, and on a signal the design never uses (must be skipped silently)
     net_clocks = []
-    if wl.random() < 0.4 and family != "quicklogic":      # (the QuickLogic .sdc names nets by their bare signal name: not judged)
+    if wl.random() < 0.4 and family not in ("quicklogic", "symbiflow"):      # (their .sdc names nets by the bare signal name: not judged)
         for sub in wl.sample(["local", "top", "unused", "sub_to_top", "top_to_sub", "sibling", "deep"], wl.randint(1, 3)):
             net_clocks.append({"sub": sub, "mhz": wl.choice([6, 12.5, 0.032768, 100, 33.333333])})
+        if wl.random() < 0.3:
+            # the same block instantiated more than once: constrained nets of one (Python) name in different submodules
+            net_clocks = [dict(nc, sub="local", same_name=True) for nc in net_clocks] + \
+                         [{"sub": "local", "mhz": wl.choice([6, 50, 100]), "same_name": True}]
     return {"config": config, "steps": ops, "use_frac": wl.choice([1.0, 1.0, 0.6, 0.3]), "use_seed": wl.randrange(1 << 30),
             "net_clocks": net_clocks}
 
@@ -250,6 +257,25 @@ def make_platform(config, shared_res=None, res_out=None):
             resources = res
             connectors = con
         return Plat(), ".pcf+sdc"
+    more = {
+        "vivado": (vendor.XilinxPlatform, dict(device="xc7a35ti", package="csg324", speed="1L"), dict(toolchain="Vivado"), ".xdc+vivado"),
+        "ise": (vendor.XilinxPlatform, dict(device="xc6slx9", package="tqg144", speed="2"), dict(toolchain="ISE"), ".ucf"),
+        "symbiflow": (vendor.XilinxPlatform, dict(device="xc7a35ti", package="csg324", speed="1L"), dict(toolchain="Symbiflow"),
+                      ".pcf+symbiflow"),
+        "quartus": (vendor.AlteraPlatform, dict(device="5CSEBA6", package="U23", speed="I7"), dict(toolchain="Quartus"), ".qsf+sdc"),
+        "mistral": (vendor.AlteraPlatform, dict(device="5CSEBA6", package="U23", speed="I7"), dict(toolchain="Mistral"), ".qsf"),
+        "diamond": (vendor.LatticePlatform, dict(device="LCMXO2-1200HC", package="TG100", speed="4"), dict(toolchain="Diamond"),
+                    ".lpf+sdc"),
+        "oxide": (vendor.LatticePlatform, dict(device="LIFCL-40", package="BG400", speed="9"), dict(toolchain="Oxide"), ".pdc"),
+        "radiant": (vendor.LatticePlatform, dict(device="LIFCL-40", package="BG400", speed="9"), dict(toolchain="Radiant"), ".pdc+sdc"),
+        "icecube": (vendor.SiliconBluePlatform, dict(device="iCE40HX8K", package="CT256"), dict(toolchain="LSE-iCECube2"),
+                    ".pcf+icecube"),
+        "gowin_ide": (vendor.GowinPlatform, dict(part="GW1NR-LV9QN88PC6/I5", family="GW1NR-9C"), dict(toolchain="Gowin"), ".cst+sdc"),
+    }
+    if fam in more:
+        base_, attrs_, kw_, ext_ = more[fam]
+        Plat = type("Plat", (_no_verilog(base_),), dict(attrs_, default_clk=config.get("default_clk"), resources=res, connectors=con))
+        return Plat(**kw_), ext_
     class Plat(vendor.GowinPlatform):
         part = osc[0] if osc else "GW1NR-LV9QN88PC6/I5"
         family = osc[1] if osc else "GW1NR-9C"
@@ -368,8 +394,71 @@ def model_request(config, state, op):
 
 
 # ---- constraint file parsers ----------------------------------------------------------------------------------------
+def _unq(x):
+    x = x.strip()
+    if x[:1] in "\"{" and x[-1:] in "\"}":
+        x = x[1:-1]
+    return x.replace("\\", "")
+
+
+CLOCK_NAMES = []       # (-name of every create_clock of the constraint files parsed last)
+
+
 def parse_constraints(ext, text, files=None):
     locs, freqs = [], []
+    del CLOCK_NAMES[:]
+    if ext in (".xdc+vivado", ".qsf+sdc", ".lpf+sdc", ".pdc", ".pdc+sdc", ".pcf+icecube", ".cst+sdc", ".pcf+symbiflow"):
+        # SDC-style clocks: in the pin file itself (Vivado .xdc, Oxide .pdc) or in a separate .sdc
+        if ext in (".xdc+vivado", ".pdc"):
+            sdc = text
+        else:
+            sdc = next((v for k, v in (files or {}).items() if k.endswith(".sdc")), "")
+            sdc = sdc.decode() if isinstance(sdc, bytes) else sdc
+        sdc = re.sub(r"\[get_(ports|nets)\s*\n\s*", r"[get_\1 ", sdc)
+        for line in sdc.splitlines():
+            line = line.strip()
+            m = re.fullmatch(r"create_clock -name (\S+) -period (\S+) \[get_(?:ports|nets) (.+)\]", line)
+            if m:
+                CLOCK_NAMES.append(_unq(m.group(1)))
+                freqs.append((_unq(m.group(3)).replace("/", ".").replace("|", "."), 1e9 / float(m.group(2))))
+                continue
+            m = re.fullmatch(r"create_clock -period (\S+) (\S+)", line)
+            if m:
+                freqs.append((m.group(2), 1e9 / float(m.group(1))))
+                continue
+            if line.startswith("create_clock"):
+                raise Violation("unreadable_clock_constraint", -1, {"line": line})
+        for line in text.splitlines():
+            line = line.strip()
+            m = (re.fullmatch(r"set_property LOC (\S+) \[get_ports (.+)\]", line) if ext == ".xdc+vivado" else
+                 re.fullmatch(r"set_location_assignment -to (?P<n>.+) PIN_(?P<p>\S+)", line) if ext == ".qsf+sdc" else
+                 re.fullmatch(r'LOCATE COMP (?P<n>"[^"]+") SITE "(?P<p>[^"]+)";', line) if ext == ".lpf+sdc" else
+                 re.fullmatch(r'ldc_set_location -site (?P<p>\S+) \[get_ports (?P<n>.+)\]', line) if ext in (".pdc", ".pdc+sdc") else
+                 re.fullmatch(r"set_io (?P<n>\S+) (?P<p>\S+)", line) if ext in (".pcf+icecube", ".pcf+symbiflow") else
+                 re.fullmatch(r'IO_LOC (?P<n>"[^"]+") (?P<p>\S+);', line))
+            if m:
+                if ext == ".xdc+vivado":
+                    locs.append((_unq(m.group(2)), m.group(1)))
+                else:
+                    locs.append((_unq(m.group("n")), _unq(m.group("p"))))
+        return locs, freqs
+    if ext == ".qsf":
+        for line in text.splitlines():
+            m = re.fullmatch(r"set_location_assignment -to (.+) PIN_(\S+)", line.strip())
+            if m:
+                locs.append((_unq(m.group(1)), m.group(2)))
+        return locs, freqs
+    if ext == ".ucf":
+        for line in text.splitlines():
+            line = line.strip()
+            m = re.fullmatch(r'NET "([^"]+)" LOC=(\S+);', line)
+            if m:
+                locs.append((m.group(1).replace("<", "[").replace(">", "]"), m.group(2)))
+            m = re.fullmatch(r'TIMESPEC "TS([^"]*)"=PERIOD "PRD([^"]+)" (\S+) ns HIGH 50%;', line)
+            if m:
+                CLOCK_NAMES.append(m.group(1))
+                freqs.append((m.group(2).replace("/", "."), 1e9 / float(m.group(3))))
+        return locs, freqs
     if ext == ".pcf+sdc":
         # QuickLogic: pins in the .pcf, clocks (periods in ns) in the .sdc
         sdc = next((v for k, v in (files or {}).items() if k.endswith(".sdc")), "")
@@ -587,8 +676,10 @@ def run_history(config, ops, use_frac, use_seed, stats=None, record=None, net_cl
     expect_net = []       # [acceptable hierarchical names, Hz, matched?]
     for k, nc in enumerate(net_clocks):
         from amaranth.hdl import Period as _Period
-        leaf = "slow_clk%d" % k
+        leaf = "slow_clk" if nc.get("same_name") else "slow_clk%d" % k
         slow = Signal(name=leaf)
+        if nc.get("same_name") and stats is not None:
+            stats["probes"]["net_clocks_of_one_name"] = stats["probes"].get("net_clocks_of_one_name", 0) + 1
         mode = nc["sub"]
         sa, sb = "nc%da" % k, "nc%db" % k
 
@@ -654,6 +745,12 @@ def run_history(config, ops, use_frac, use_seed, stats=None, record=None, net_cl
                 # the platform's own clock source could not be built: not a refusal by the platform code, a crash below it
                 raise Violation("platform_clock_source_crash", -1, {"osc": config["osc_clk"], "raised": type(e).__name__,
                                                                     "where": where, "msg": str(e)[:200]})
+            frames = [f_.filename for f_ in _tb.extract_tb(e.__traceback__)]
+            if any("/amaranth/" in f_ for f_ in frames) and not isinstance(e, ResourceError):
+                # every request was granted and the design only uses what was granted: the plan must be preparable
+                inside = [f_.split("amaranth/")[-1] for f_ in frames if "/amaranth/" in f_]
+                raise Violation("plan_preparation_crash", -1, {"family": config["family"], "raised": type(e).__name__,
+                                                               "where": inside[-1], "msg": str(e)[:200]})
             raise
     text = next((v for k, v in plan.files.items() if k.endswith(ext.split("+")[0])), None)
     if text is None:
@@ -684,7 +781,11 @@ def run_history(config, ops, use_frac, use_seed, stats=None, record=None, net_cl
         if pin in pins_seen:
             raise Violation("pin_bound_twice", -1, {"pin": pin, "ports": [pins_seen[pin], name]})
         pins_seen[pin] = name
-    if ext not in (".cst", ".xdc") and not config.get("osc_clk"):   # (the Apicula and X-Ray templates carry no clock constraints)
+    if ext not in (".cst", ".xdc", ".qsf") and not config.get("osc_clk"):   # (the Apicula, X-Ray and Mistral templates carry no clock constraints)
+        if len(set(CLOCK_NAMES)) < len(CLOCK_NAMES):
+            # a second create_clock of the same -name replaces the first one: the earlier clock is left unconstrained
+            dup = sorted(n_ for n_ in set(CLOCK_NAMES) if CLOCK_NAMES.count(n_) > 1)
+            raise Violation("clock_name_reused", -1, {"names": dup, "family": config["family"]})
         cseen = {}
         for name, hz in freqs:
             if name in cseen:
@@ -702,7 +803,9 @@ def run_history(config, ops, use_frac, use_seed, stats=None, record=None, net_cl
                     *scope, leaf_ = name.split(".")
                     modname = ".".join(["top"] + scope)
                     mm = re.search(r"^module \\" + re.escape(modname) + r"$(.*?)^end$", il_text, re.M | re.S)
-                    if mm is None or not re.search(r"^\s*wire [^\n]*\\" + re.escape(leaf_) + r"$", mm.group(1), re.M):
+                    if not il_text:
+                        pass        # (this toolchain's plan carries no RTLIL netlist to look the net up in)
+                    elif mm is None or not re.search(r"^\s*wire [^\n]*\\" + re.escape(leaf_) + r"$", mm.group(1), re.M):
                         raise Violation("clock_names_missing_net", -1, {"name": name, "module": modname})
             if exp is None:
                 raise Violation("clock_for_undeclared_port", -1, {"port": name, "hz": hz})
